@@ -15,7 +15,7 @@ TB = ("Trusted: Coq 8.16.1 kernel (full .vo build, vm_compute in finite obligati
 # property -> (claimed?, technique, level text, extra note, design ref)
 P = {
  "C01": (True, "Coq proof: refinement of the tree/hash/linked map models to a history-based map spec (induction over op lists) + differential correspondence model vs Go",
-         "Theorems (Properties/C01.v, closed under the global context) state, for every operation list, every strict-weak-order comparator of the family and every B-tree order >= 3, that Get/Size/Keys/Values of the machine equal the 'last live Put' scan of the history; the correspondence check ties the machine to the Go code on the contents projection. Second tie, regenerated from the Go source on every run (srcgen): HashMap / LinkedHashMap / TreeMap methods and the POINTER code of the red-black and AVL trees (Put, Remove, Get, GetNode over a heap of nodes with Parent links; insertCase1-5, deleteCase1-6, rotations, putFix/removeFix on **Node links) are proved equal to the model's functions; B-tree search/Get likewise (its Put/Remove are run against the model inside Coq).", "0.2, 4 C01"),
+         "Theorems (Properties/C01.v, closed under the global context) state, for every operation list, every strict-weak-order comparator of the family and every B-tree order >= 3, that Get/Size/Keys/Values of the machine equal the 'last live Put' scan of the history; the correspondence check ties the machine to the Go code on the contents projection. Second tie, regenerated from the Go source on every run (srcgen): HashMap / LinkedHashMap / TreeMap methods and the POINTER code of the red-black and AVL trees (Put, Remove, Get, GetNode over a heap of nodes with Parent links; insertCase1-5, deleteCase1-6, rotations, putFix/removeFix on **Node links) are proved equal to the model's functions; B-tree search, Get, Put (split) and Remove (borrow, merge) likewise.", "0.2, 4 C01"),
  "C02": (True, "Coq proof: sortedness/navigation theorems over all histories + differential correspondence",
          "Theorems (Properties/C02.v): keys strictly ascending under any SWO comparator, one key per equivalence class, Left/Right least/greatest, Floor/Ceiling characterised, for all histories; tie compares keys, values, both iteration directions and floor/ceiling for every probe. The pointer code of Floor / Ceiling / Left / Right and of the Parent-climbing iterators of the red-black, AVL and B-trees is regenerated from the Go source on every run (srcgen) and proved equal to the model's functions.", "0.2, 4 C02"),
  "C03": (True, "Coq proof: the three list step functions refine one abstract sequence + differential correspondence incl. chain-consistency hooks",
@@ -27,7 +27,7 @@ P = {
  "C06": (True, "Coq proof: heap-order invariant and multiset preservation by induction over histories + raw-array correspondence",
          "Theorems (Properties/C06.v): heap_ok after every history (single/bulk push, pop, clear, load), min property, bag preservation, Values permutation. binaryheap.go (bubbleUp, bubbleDown, Push, Pop) and its iterator are regenerated from the Go source on every run (srcgen) and proved equal to the model's heap functions.", "0.2, 4 C06"),
  "C07": (True, "Coq proof: red-black / AVL / B-tree shape invariants, height and comparator-call bounds + exact-structure and exact-cost correspondence",
-         "Theorems (Properties/C07*.v): invariants preserved by Put/Remove for all SWO comparators and orders, height bounds (2 log2(n+1), Fibonacci/1.45 log2, ceil(m/2) powers), comparator-call bounds; tie compares the complete exported structure and the measured comparator-call count of every operation; an extracted oracle (proved silent on every model run, C07_oracle.v) evaluates the invariants and the exact integer forms of the numeric bounds on the implementation's own output to decide between a failing input and a broken tie. The pointer-level Put and Remove of the red-black and AVL trees (descent, allocation, insertCase1-5, deleteCase1-6, putFix/removeFix, rotations, Parent links) and the lookups of all three trees are regenerated from the Go source on every run (srcgen) and proved equal to the model incl. colours / balance factors and the exact number of comparator calls; the B-tree's Put/Remove are regenerated and run against the model inside Coq.", "0.2, 4 C07"),
+         "Theorems (Properties/C07*.v): invariants preserved by Put/Remove for all SWO comparators and orders, height bounds (2 log2(n+1), Fibonacci/1.45 log2, ceil(m/2) powers), comparator-call bounds; tie compares the complete exported structure and the measured comparator-call count of every operation; an extracted oracle (proved silent on every model run, C07_oracle.v) evaluates the invariants and the exact integer forms of the numeric bounds on the implementation's own output to decide between a failing input and a broken tie. The pointer-level Put and Remove of the red-black and AVL trees (descent, allocation, insertCase1-5, deleteCase1-6, putFix/removeFix, rotations, Parent links) and the lookups of all three trees are regenerated from the Go source on every run (srcgen) and proved equal to the model incl. colours / balance factors and the exact number of comparator calls; the B-tree's Put/Remove (split, borrow, merge, root collapse, re-parenting) likewise, with exact comparator-call counts.", "0.2, 4 C07"),
  "C08": (True, "Coq proof: iterator models refine an integer cursor over -1..n (simulation) + correspondence on call scripts",
          "Theorems (Properties/C08*.v): every iterator model (index, linked, ring, heap, RB/AVL/B-tree path iterators) simulates the cursor for every call sequence on every reachable state of all 18 iterator types. The Go sources of the index, ring, linked-list (pointer mode), heap, red-black, AVL and B-tree iterators are re-translated to Gallina on every run (srcgen) and proved equal to the model's iterator functions.", "0.2, 4 C08"),
  "C09": (True, "Coq proof: insertion-order ('birth order') characterisation over all histories + correspondence",
